@@ -107,4 +107,12 @@ theorem straight_alu (op : BinOp) (long reg : Bool) (d n : Nat) (o v : Int) :
       Consts.op_OR, Consts.op_AND, Consts.op_LSH, Consts.op_RSH, Consts.op_MOD, Consts.op_XOR, Consts.op_ARSH,
       Consts.op_LONG, Consts.op_REG]
 
+
+/-- closes `straight ⟨concrete opcode expression, ..⟩ = true` goals (after case splits on flags/formats) -/
+macro "straight_tac" : tactic => `(tactic|
+  simp [straight, BinOp.opcode, longBit, Fmt.sizeOp, Consts.op_ADD, Consts.op_SUB, Consts.op_MUL, Consts.op_DIV,
+    Consts.op_OR, Consts.op_AND, Consts.op_LSH, Consts.op_RSH, Consts.op_MOD, Consts.op_XOR, Consts.op_ARSH,
+    Consts.op_LONG, Consts.op_REG, Consts.op_MOV, Consts.op_NEG, Consts.op_DW, Consts.op_W, Consts.op_H, Consts.op_B,
+    Consts.op_LD, Consts.op_ST, Consts.op_STX])
+
 end Ebv.Ebpf
